@@ -185,6 +185,14 @@ fn impl_desc(tcx: TyCtxt<'_>, d: DefId) -> String {
     }
 }
 
+/// the span lies in the expansion of one of the `debug_assert*!` macros (compiled out without debug assertions)
+fn in_debug_assert(sp: Span) -> bool {
+    sp.macro_backtrace().any(|e| match e.kind {
+        rustc_span::ExpnKind::Macro(_, name) => name.as_str().starts_with("debug_assert"),
+        _ => false,
+    })
+}
+
 fn span_loc(tcx: TyCtxt<'_>, sp: Span) -> (String, usize) {
     let sp = if sp.from_expansion() { sp.source_callsite() } else { sp };
     let sm = tcx.sess.source_map();
@@ -725,6 +733,9 @@ impl<'a, 'tcx> Cx<'a, 'tcx> {
                 d.insert("u".into(), self.unwind(unwind));
                 d.insert("line".into(), ln);
                 d.insert("exp".into(), J::Bool(t.source_info.span.from_expansion()));
+                if in_debug_assert(t.source_info.span) {
+                    d.insert("dbgassert".into(), J::Bool(true));
+                }
                 J::Arr(vec![J::s("call"), J::Obj(d)])
             }
             TerminatorKind::Assert { cond, expected, msg, target, unwind } => {
